@@ -869,3 +869,40 @@ package client
 //@   ensures encErr == nil && !rfail(r0) && !rejected(r0) ==> decErr == nil
 //@   ensures encErr == nil && decErr == nil ==> !desync(r0) && rcount(r0) - old(rcount(r0)) == wcount(w0) - old(wcount(w0))
 //@   ensures encErr == nil && decErr == nil ==> y.ChannelID == x.ChannelID && y.Version == x.Version && sigBytesSame(y.Sig, x.Sig)
+
+// Sync message: phase and the current transaction (summary token: lemma channel.verifRoundTripTransaction).
+//@ func verifRoundTripChannelSyncMsg
+//@   tokenmodel
+//@   requires w0 != nil && r0 != nil && x != nil && txWFc(x.CurrentTX)
+//@   modifies *
+//@   inlines (*ChannelSyncMsg).Encode, (*ChannelSyncMsg).Decode, (Phase).Encode, (*Phase).Decode
+//@   ensures encErr == nil && !rfail(r0) && !rejected(r0) ==> decErr == nil
+//@   ensures encErr == nil && decErr == nil ==> !desync(r0) && rcount(r0) - old(rcount(r0)) == wcount(w0) - old(wcount(w0))
+//@   ensures encErr == nil && decErr == nil ==> y != nil && y.Phase == x.Phase && txEqc(y.CurrentTX, x.CurrentTX)
+
+// Virtual channel funding and settlement proposals: the update message, the parameters and state of the virtual channel, (for
+// funding) the index map, then the sparse signature list of the virtual channel's state, sized by its number of participants.
+//@ pred signedWFc(x channel.SignedState) = x.Params != nil && paramsWFc(x.Params) && x.State != nil && stateWFc(*x.State) && len(x.Sigs) == len(x.State.Balances[0])
+//@ func verifRoundTripVirtualChannelFundingProposalMsg
+//@   tokenmodel
+//@   requires w0 != nil && r0 != nil && updMsgWFc(x.ChannelUpdateMsg) && signedWFc(x.Initial)
+//@   modifies *
+//@   inlines (VirtualChannelFundingProposalMsg).Encode, (*VirtualChannelFundingProposalMsg).Decode
+//@   ensures encErr == nil && !rfail(r0) && !rejected(r0) ==> decErr == nil
+//@   ensures encErr == nil && decErr == nil ==> !desync(r0) && rcount(r0) - old(rcount(r0)) == wcount(w0) - old(wcount(w0))
+//@   ensures encErr == nil && decErr == nil ==> updMsgEqc(y.ChannelUpdateMsg, x.ChannelUpdateMsg)
+//@   ensures encErr == nil && decErr == nil ==> y.Initial.Params != nil && paramsEqc(y.Initial.Params, x.Initial.Params)
+//@   ensures encErr == nil && decErr == nil ==> y.Initial.State != nil && stateEqc(*y.Initial.State, *x.Initial.State)
+//@   ensures encErr == nil && decErr == nil ==> sigsEq(y.Initial.Sigs, x.Initial.Sigs) && idxEq(y.IndexMap, x.IndexMap)
+
+//@ func verifRoundTripVirtualChannelSettlementProposalMsg
+//@   tokenmodel
+//@   requires w0 != nil && r0 != nil && updMsgWFc(x.ChannelUpdateMsg) && signedWFc(x.Final)
+//@   modifies *
+//@   inlines (VirtualChannelSettlementProposalMsg).Encode, (*VirtualChannelSettlementProposalMsg).Decode
+//@   ensures encErr == nil && !rfail(r0) && !rejected(r0) ==> decErr == nil
+//@   ensures encErr == nil && decErr == nil ==> !desync(r0) && rcount(r0) - old(rcount(r0)) == wcount(w0) - old(wcount(w0))
+//@   ensures encErr == nil && decErr == nil ==> updMsgEqc(y.ChannelUpdateMsg, x.ChannelUpdateMsg)
+//@   ensures encErr == nil && decErr == nil ==> y.Final.Params != nil && paramsEqc(y.Final.Params, x.Final.Params)
+//@   ensures encErr == nil && decErr == nil ==> y.Final.State != nil && stateEqc(*y.Final.State, *x.Final.State)
+//@   ensures encErr == nil && decErr == nil ==> sigsEq(y.Final.Sigs, x.Final.Sigs)
